@@ -3,5 +3,6 @@
 for d in /verif/seeded/C*; do
   pid=$(basename $d | cut -d- -f1)
   printf "%s " "$(basename $d)"
-  /verif/audit/seed.py $pid $d --tier ${1:-quick} 2>&1 | tail -1 | cut -c1-220
+  chk=$(/venv/bin/python -c "import json;print(json.load(open('$d/meta.json')).get('checked_with','$pid'))")
+  /verif/audit/seed.py $pid $d --tier ${1:-quick} --check $chk 2>&1 | tail -1 | cut -c1-220
 done
